@@ -39,6 +39,20 @@ const DOC_SPECS: &[&str] = &[
     "%x", "%F", "%v", "%H", "%k", "%I", "%l", "%P", "%p", "%M", "%S", "%f", "%.f", "%.3f", "%.6f", "%.9f", "%3f", "%6f", "%9f",
     "%R", "%T", "%X", "%r", "%Z", "%z", "%:z", "%::z", "%:::z", "%#z", "%c", "%+", "%s", "%t", "%n", "%%",
 ];
+/// the Example column of the documentation table (strftime.rs module doc), rows with a non-empty cell
+const DOC_EXAMPLES: &[(&str, &str)] = &[
+    ("%Y", "2001"), ("%C", "20"), ("%y", "01"), ("%q", "1"), ("%m", "07"), ("%b", "Jul"), ("%B", "July"), ("%h", "Jul"), ("%d", "08"),
+    ("%e", " 8"), ("%a", "Sun"), ("%A", "Sunday"), ("%w", "0"), ("%u", "7"), ("%U", "28"), ("%W", "27"), ("%G", "2001"), ("%g", "01"),
+    ("%V", "27"), ("%j", "189"), ("%D", "07/08/01"), ("%x", "07/08/01"), ("%F", "2001-07-08"), ("%v", " 8-Jul-2001"), ("%H", "00"),
+    ("%k", " 0"), ("%I", "12"), ("%l", "12"), ("%P", "am"), ("%p", "AM"), ("%M", "34"), ("%S", "60"), ("%f", "26490000"),
+    ("%.f", ".026490"), ("%.3f", ".026"), ("%.6f", ".026490"), ("%.9f", ".026490000"), ("%3f", "026"), ("%6f", "026490"),
+    ("%9f", "026490000"), ("%R", "00:34"), ("%T", "00:34:60"), ("%X", "00:34:60"), ("%r", "12:34:60 AM"), ("%Z", "ACST"),
+    ("%z", "+0930"), ("%:z", "+09:30"), ("%::z", "+09:30:00"), ("%:::z", "+09"), ("%#z", "+09"),
+    ("%c", "Sun Jul  8 00:34:60 2001"), ("%+", "2001-07-08T00:34:60.026490+09:30"), ("%s", "994518299"),
+];
+/// example cells that are not what the crate prints (theorem `doc_examples_divergent`): what it prints instead
+/// (`%#z` is parsing-only: formatting fails)
+const DOC_EXAMPLE_DIVERGENT: &[(&str, &str)] = &[("%q", "3"), ("%U", "27"), ("%f", "026490000"), ("%Z", "+09:30"), ("%#z", "")];
 /// numeric specifiers, the only ones that take a padding modifier
 const NUM_LETTERS: &[char] = &['Y', 'C', 'y', 'q', 'm', 'd', 'e', 'w', 'u', 'U', 'W', 'G', 'g', 'V', 'j', 'H', 'k', 'I', 'l', 'M', 'S', 'f', 's'];
 const PREFIXES: &[&str] = &["", "-", "0", "_", "#", ".", ".3", ".6", ".9", "3", "6", "9", ":", "::", ":::", "-#", "#-", "--", ".f", "-.", "-3"];
@@ -751,6 +765,74 @@ pub fn run(c: &mut Ctx) {
             c.fail("unknown specifier was formatted", &fmt);
         }
         c.count("unknown-specifier:fails");
+    }
+
+
+    // ---- the documentation table read as TEXT: example column and per-type availability --------------------
+    // (Spec/StrftimeDocSpec.lean `docRows`; theorems doc_examples_partial / doc_examples_divergent /
+    //  entry_point_specifier).  The example value of the documentation: 2001-07-08T00:34:60.026490+09:30.
+    {
+        use std::fmt::Write;
+        let ex_off = FixedOffset::east_opt(34200).unwrap();
+        let ex_d = NaiveDate::from_ymd_opt(2001, 7, 8).unwrap();
+        let ex_t = mk_time(2099, 1_026_490_000);
+        let ex = ex_off.from_local_datetime(&ex_d.and_time(ex_t)).single().unwrap();
+        let show = |f: &dyn Fn(&mut String) -> std::fmt::Result| {
+            guard(|| {
+                let mut s = String::new();
+                f(&mut s).map(|_| s).map_err(|_| ())
+            })
+        };
+        for (spec, example) in DOC_EXAMPLES {
+            let got = show(&|s| write!(s, "{}", ex.format(spec)));
+            match DOC_EXAMPLE_DIVERGENT.iter().find(|(s, _)| s == spec) {
+                None => {
+                    c.count("doc-example:checked");
+                    if got != Ok(Ok(example.to_string())) {
+                        c.fail("specifier does not print the Example cell of its documentation row", &format!("{} on {} -> {:?}, documentation example {:?}", spec, ex, got, example));
+                    }
+                }
+                Some((_, observed)) => {
+                    // documentation error already recorded (theorem doc_examples_divergent): reported under its own prefix
+                    c.count(&format!("DOC-EXAMPLE-DIVERGENT {} documentation {:?} crate {:?}", spec, example, observed));
+                    if got != Ok(Ok(observed.to_string())) && !(observed.is_empty() && got == Ok(Err(()))) {
+                        c.fail("DOC-EXAMPLE-DIVERGENT: crate output differs from the recorded divergence", &format!("{} -> {:?}", spec, got));
+                    }
+                }
+            }
+        }
+        // which documented specifier each of the four types can print: DATE rows need a date, TIME rows a time,
+        // TIME ZONE rows an offset, `%c` date+time, `%+` all three, `%s` date+time; everything else must fail
+        let date_ok = "YCyqmbBhdeaAwuUWGgVjDxFv";
+        let time_ok = ["H", "k", "I", "l", "P", "p", "M", "S", "f", ".f", ".3f", ".6f", ".9f", "3f", "6f", "9f", "R", "T", "X", "r"];
+        let off_only = ["Z", "z", ":z", "::z", ":::z"];
+        for spec in DOC_SPECS {
+            let body = &spec[1..];
+            let special = ["t", "n", "%"].contains(&body);
+            let is_date = body.len() == 1 && date_ok.contains(body);
+            let is_time = time_ok.contains(&body);
+            let is_off = off_only.contains(&body);
+            for _ in 0..c.n(6, 40) {
+                let (d, t, off) = (gen_date_b(c), gen_time(c), gen_off(c));
+                let ndt = d.and_time(t);
+                let mut cases: Vec<(&str, Result<Result<String, ()>, ()>, bool)> = vec![
+                    ("NaiveDate", show(&|s| write!(s, "{}", d.format(spec))), special || is_date),
+                    ("NaiveTime", show(&|s| write!(s, "{}", t.format(spec))), special || is_time),
+                    ("NaiveDateTime", show(&|s| write!(s, "{}", ndt.format(spec))), special || is_date || is_time || body == "c" || body == "s"),
+                ];
+                if let Some(z) = off.from_local_datetime(&ndt).single() {
+                    cases.push(("DateTime", show(&|s| write!(s, "{}", z.format(spec))), body != "#z"));
+                    let _ = is_off;
+                }
+                for (ty, got, want_ok) in cases {
+                    c.count("entry-point:availability");
+                    match (&got, want_ok) {
+                        (Ok(Ok(_)), true) | (Ok(Err(())), false) => {}
+                        _ => c.fail("a type prints a specifier whose field it lacks, or fails on one it has", &format!("{}::format({:?}) on {:?} {:?} {:?} -> {:?}", ty, spec, d, t, off, got)),
+                    }
+                }
+            }
+        }
     }
 
     // ---- RFC 3339 / RFC 2822 writers -----------------------------------------------------------------------
